@@ -63,7 +63,10 @@ class ParamsGenerator:
     Raises:
       RuntimeError: If the calibration dataset is required but not provided.
     """
-    if model_recipe_manager.need_calibration() and not model_qsvs:
+    # An empty calibration result is a valid one: calibrate() returns it when
+    # the recipe selects no op that needs statistics (e.g. a '*' rule whose
+    # config no op of the model supports).
+    if model_recipe_manager.need_calibration() and model_qsvs is None:
       raise RuntimeError(
           'Model quantization statistics values (QSVs) are required for the'
           ' input recipe. This can be obtained by running calibration on sample'
